@@ -364,6 +364,8 @@ def canaries(chk, prog):
 
 
 def run(chk, prog, tier):
+    from sa import lints as _lints
+    _lints.domain_guard(chk, prog, refs=['ahrs/filters/fqa.py::FQA.estimate', 'ahrs/filters/aqua.py::AQUA.estimate', 'ahrs/filters/complementary.py::Complementary.am_estimation', 'ahrs/filters/tilt.py::Tilt.estimate', 'ahrs/filters/tilt.py::Tilt._compute_all'])
     n = unit_ret(chk, prog)
     if n < 45:
         chk.error("UNIT-RET visited %d return paths, 50 confirmed by hand" % n)
